@@ -36,6 +36,8 @@ def enc(v):
     return ["s", str(v)]
 
 
+FLOAT_NAMES = ["alpha", "beta", "gamma", "delta"]
+FLOAT_TARGET = {"alpha": 0.0, "beta": 10.0, "gamma": 4.0, "delta": 6.5}
 SMALL_ACT = ["relu", "tanh", "gelu"]
 SMALL_OPT = ["adam", "sgd", "rmsprop", "lion"]
 
@@ -45,6 +47,11 @@ def build_problem(cfg):
     from deephyper.hpo import HpProblem
 
     p = HpProblem()
+    if cfg.get("space") == "floats":
+        # four float hyperparameters of the same kind; the optimum sits on two bounds (alpha=0, beta=10)
+        for name in FLOAT_NAMES:
+            p.add_hyperparameter((0.0, 10.0), name)
+        return p
     if cfg.get("space") == "small":
         # small ALL-DISCRETE space with string categories (3 x 4 x 2 = 24 points): candidate sets are full of
         # duplicates and already-sampled points, and tuples of strings hash differently in every process
@@ -71,6 +78,13 @@ def build_problem(cfg):
 def objective(cfg, x):
     import math
 
+    if cfg.get("space") == "floats":
+        v = -sum((x[n] - FLOAT_TARGET[n]) ** 2 for n in FLOAT_NAMES) / 10.0
+        if cfg.get("fail") and x["gamma"] > 8.0:
+            return "F_k"
+        if cfg.get("nobj", 1) == 2:
+            return (v, -abs(x["gamma"] - x["delta"]))
+        return v
     if cfg.get("space") == "small":
         v = {"relu": 0.0, "tanh": 0.5, "gelu": 0.1}[x["cat"]] + {"adam": 0.3, "sgd": 0.0, "rmsprop": -0.2, "lion": 0.3}[x["opt"]]
         v += 0.25 * x["ord"] + (0.05 if x.get("child") == "y" else 0.0)
@@ -156,11 +170,20 @@ def main():
     fail_at = set(cfg.get("fail_at", []))
     again = set(cfg.get("again", []))
 
+    # objects handed to EVERY search built in this process when cfg["objs"] is set
+    SHARED = {}
+    RUN_KW = {"offset": 0.0}
+    if cfg.get("objs") and kind == "CBO":
+        SHARED = dict(surrogate_model_kwargs={"n_estimators": 25}, scheduler={"type": "periodic-exp-decay", "period": 4, "rate": 0.1})
+        if cfg.get("sm", "ET") not in ("ET", "RF", "TB", "RS"):
+            SHARED.pop("surrogate_model_kwargs")
+
     class Drv:
         """one search object being driven; its evaluations are numbered so that `fail_at` can make the i-th one fail"""
 
-        def __init__(self, idx):
+        def __init__(self, idx, seed=None):
             self.idx, self.props, self.count, self.s = idx, [], 0, None
+            self.seed = seed_value(cfg) if seed is None else seed
 
         def evaluate(self, x):
             i = self.count
@@ -170,11 +193,15 @@ def main():
         def build(self):
             drv = self
 
-            async def run(job):
-                return drv.evaluate(job.parameters)
+            async def run(job, offset=0.0):
+                v = drv.evaluate(job.parameters)
+                return v  # `offset` (run_function_kwargs) is accepted and must not matter
 
-            ev = Evaluator.create(run, method="serial", method_kwargs={"num_workers": 1})
-            common = dict(random_state=seed_value(cfg), log_dir=env["log_dir"] + ("" if self.idx == 0 else f"_{self.idx}"))
+            mk = {"num_workers": 1}
+            if cfg.get("objs"):
+                mk["run_function_kwargs"] = RUN_KW
+            ev = Evaluator.create(run, method="serial", method_kwargs=mk)
+            common = dict(random_state=self.seed, log_dir=env["log_dir"] + ("" if self.idx == 0 else f"_{self.idx}"))
             if kind == "CBO":
                 kw = dict(
                     surrogate_model=cfg.get("sm", "ET"),
@@ -186,9 +213,14 @@ def main():
                     moo_scalarization_strategy=cfg.get("moo", "Chebyshev"),
                     acq_optimizer=cfg.get("acq_opt", "auto"),
                     filter_failures=cfg.get("ff", "min"),
+                    update_prior=bool(cfg.get("update_prior", False)),
+                    update_prior_quantile=cfg.get("upq", 0.1),
                 )
                 if cfg.get("sm_kwargs"):
                     kw["surrogate_model_kwargs"] = cfg["sm_kwargs"]
+                if cfg.get("objs"):
+                    # option OBJECTS (the very same dict / list objects for every search of this process)
+                    kw.update(SHARED)
                 if cfg.get("acq_opt", "auto") in ("ga", "mixedga"):
                     kw["acq_optimizer_freq"] = 1
                 s = CBO(problem, ev, **common, **kw)
@@ -199,11 +231,15 @@ def main():
                     rs = np.random.RandomState(12345)
                     rows = []
                     for j in range(24):
+                        # several columns of the SAME kind (two integers / two categoricals / four floats): the order in
+                        # which the sampler enumerates them must not depend on the process
                         if cfg.get("space") == "small":
                             rows.append({"job_id": j, "p:cat": SMALL_ACT[j % 3], "p:opt": SMALL_OPT[j % 4], "objective": float(rs.rand())})
+                        elif cfg.get("space") == "floats":
+                            rows.append(dict({"job_id": j, "objective": float(rs.rand())}, **{"p:" + n: float(rs.uniform(0, 10)) for n in FLOAT_NAMES}))
                         else:
                             rows.append({"job_id": j, "p:i_log": int(rs.randint(1, 65)), "p:r": float(rs.uniform(-1.5, 2.5)),
-                                         "p:cat": ["a", "b", "c"][j % 3], "objective": float(rs.rand())})
+                                         "p:k": int(rs.randint(0, 10)), "p:cat": ["a", "b", "c"][j % 3], "objective": float(rs.rand())})
                     s.fit_generative_model(pd.DataFrame(rows))
                 if cfg.get("mode", "asktell") == "asktell":
                     s._setup_optimizer()
@@ -245,7 +281,22 @@ def main():
                 self.props.append([[n, enc(row["p:" + n])] for n in names])
 
     inproc = cfg.get("inproc", "none")
-    drvs = [Drv(i) for i in range(1 if inproc == "none" else int(cfg.get("twins", 2)))]
+    if inproc == "history":
+        # an EARLIER search with another seed, built from the same problem / option objects, runs to its end first;
+        # then the search under test is built from the very same objects.  Reported: the second one.
+        pre = Drv(1, seed=int(cfg["seed"]) % 1000 + 17)
+        try:
+            pre.build()
+            for k, n in enumerate(cfg["batches"][:4]):
+                pre.round(k, n)
+        except Exception as e:
+            out["status"] = "unavailable"
+            out["error"] = f"predecessor: {type(e).__name__}: {e}"[:300]
+            print(json.dumps(out))
+            return
+        drvs = [Drv(0)]
+    else:
+        drvs = [Drv(i) for i in range(1 if inproc == "none" else int(cfg.get("twins", 2)))]
     try:
         for d in drvs:  # every search object exists BEFORE any of them runs
             d.build()
